@@ -235,7 +235,14 @@ def chain_strategy():
         B = dict(kind=b_kind, block_index=draw(st.integers(0, 60)), rounding="TFL", kernel=[kw, kh, sx, sy, dx, dy], padding=[pt, pl, pb, pr], upscale="NONE",
                  part_kernel=draw(st.booleans()), ifm=copy.deepcopy(X), ofm=fm(0x40000, oh, ow, d3 if b_kind == "conv" else d2))
         if b_kind == "pool":
-            B["mode"] = draw(st.sampled_from(["MAX", "AVERAGE"]))
+            B["mode"] = draw(st.sampled_from(["MAX", "AVERAGE", "REDUCE_SUM"]))
+            if B["mode"] == "REDUCE_SUM" and layout == "NHCWB16" and accel == "ethos-u65-512":
+                B["mode"] = "AVERAGE"  # the generator refuses REDUCE_SUM with an NHCWB16 IFM on the two-core accelerator (documented restriction)
+            if B["mode"] == "REDUCE_SUM":
+                # sums over the whole IFM depth into one channel (reads IFM depth blocks like a convolution)
+                B["kernel"], B["padding"] = [1, 1, 1, 1, 1, 1], [0, 0, 0, 0]
+                B["ofm"] = fm(0x40000, H2, W2, 1)
+                B["ofm"]["dtype"] = "int32"
         else:
             B["weights"], B["biases"] = [[0, 8192, 1600]] * nc, [[0, 16384, 160]] * nc
         return dict(kind="sequence", accel=accel, ops=[A, B])
